@@ -46,6 +46,9 @@ def oracle(ck, extended):
         H = rng.randint(2, 40); W = rng.randint(2, 40)
         x = gen.float_tensor(ck.nprng, (rng.randint(1, 2), rng.randint(1, 2), H, W), rng.choice([1.0, 100.0]))
         rt.guard(ck, oracle_fwd, ck, b, s, bt, qt, J, x, '%s/%s' % (b, s))
+    for (H, W, J) in [(2, 2, 3), (4, 4, 4), (3, 5, 4), (8, 8, 5), (6, 2, 3)]:      # deeper than the image is large
+        b, s = rng.choice(pairs); bt, qt = OD.lib_tables(b, s)
+        rt.guard(ck, oracle_fwd, ck, b, s, bt, qt, J, gen.float_tensor(ck.nprng, (1, 2, H, W)), '%s/%s' % (b, s))
     for it in range((30 if q else 300) * (3 if extended else 1)):
         bt = OD.int_biort(rng, gen); qt = OD.int_qshift(rng, gen)
         J = rng.randint(1, 3)
